@@ -1189,4 +1189,115 @@ Proof.
       * destruct o; try (rewrite IH; lia); try (rewrite (Nr eq_refl), IH; lia).
       * rewrite Yr, IH. lia.
 Qed.
+
+(* (c) SAFETY THROUGH THE LOOP *)
+Lemma in_proc_event tr u o outs : In (u, EProc o outs) tr -> In o (pops tr).
+Proof. intros Hin. unfold pops, proc_of. apply in_map_iff. exists (o, outs). split; [reflexivity|]. apply in_flat_map. exists (u, EProc o outs). split; [exact Hin|left; reflexivity]. Qed.
+
+(* where a chain message handled by the processor in one step of the composition comes from: the environment (a watcher's
+   polling path) or the answer of the watcher's re-observation path to the request it took from its queue in this very step.
+   In particular NO gossip step - whatever request, observation or VAA a peer sends - makes the processor handle a chain message *)
+Lemma lstep_localmsg_source st o u m outs : In (u, EProc (LocalMsg m) outs) (snd (lstep st o)) ->
+  o = LEnv (VMsg m) \/
+  exists c r, o = LWatch c /\ snd (R.step (l_disp st) (R.Drain c)) = R.Drained (Some r) /\ In m (watch c r (l_now st)).
+Proof.
+  intros Hin. apply in_proc_event in Hin. rewrite lstep_pops in Hin. destruct o as [t| |q| |from mm| |c|e].
+  - destruct Hin as [X|[]]; discriminate X.
+  - cbn in Hin. destruct Hin as [X|[X|[X|[]]]]; discriminate X.
+  - destruct Hin.
+  - destruct Hin.
+  - unfold proc_ops_of in Hin. apply in_flat_map in Hin as (y & _ & Hy). destruct y; [destruct Hy as [X|[]]; discriminate X|destruct Hy as [X|[]]; discriminate X|destruct Hy].
+  - destruct Hin.
+  - right. destruct (snd (R.step (l_disp st) (R.Drain c))) as [c0| | | | | |[r|]] eqn:E; try destruct Hin. exists c, r. split; [reflexivity|]. split; [exact E|].
+    apply in_map_iff in Hin as (m' & X & Hm). inversion X; subst. exact Hm.
+  - left. destruct Hin as [X|[]]. destruct e; try discriminate X. inversion X; subst. reflexivity.
+Qed.
+
+(* what a watcher takes from its queue was put there by a forward: it names the chain of that watcher *)
+Definition queues_named (d : R.state) : Prop := forall c q, R.find_queue (R.queues d) c = Some q -> forall r, In r (R.q_items q) -> R.chain_of r = c.
+
+Lemma queues_named_step d o : queues_named d -> queues_named (fst (R.step d o)).
+Proof.
+  intros QN. destruct o as [r t|t|c]; cbn [R.step].
+  - destruct (R.cache_get (R.cache d) (R.key_of r)); [exact QN|]. cbn [R.key_of fst].
+    destruct (R.find_queue (R.queues d) (R.chain_of r)) as [q|] eqn:Eq; [|exact QN]. destruct (R.full q); [destruct reobs_remember_always; exact QN|].
+    cbn [fst]. intros c q' Hq' r' Hr'. cbn [R.queues] in Hq'. rewrite RP.find_set_items in Hq'. destruct (Z.eqb_spec c (R.chain_of r)) as [->|Hn].
+    + rewrite Eq in Hq'. cbn [option_map] in Hq'. inversion Hq'; subst q'. cbn [R.q_items] in Hr'. apply in_app_or in Hr' as [Hr'|[<-|[]]]; [eapply QN; eassumption|reflexivity].
+    + eapply QN; eassumption.
+  - exact QN.
+  - destruct (R.find_queue (R.queues d) c) as [q|] eqn:Eq; [|exact QN]. destruct (R.q_items q) as [|x rest] eqn:Ei; [exact QN|].
+    cbn [fst]. intros c' q' Hq' r' Hr'. cbn [R.queues] in Hq'. rewrite RP.find_set_items in Hq'. destruct (Z.eqb_spec c' c) as [->|Hn].
+    + rewrite Eq in Hq'. cbn [option_map] in Hq'. inversion Hq'; subst q'. cbn [R.q_items] in Hr'. eapply QN; [exact Eq|]. rewrite Ei. right. exact Hr'.
+    + eapply QN; eassumption.
+Qed.
+
+Lemma queues_named_final : forall ops d, queues_named d -> queues_named (R.final d ops).
+Proof. induction ops as [|o ops IH]; intros d QN; [exact QN|]. cbn [R.final]. apply IH. apply queues_named_step. exact QN. Qed.
+
+Lemma queues_named_init : queues_named (R.init node_queues).
+Proof.
+  intros c q Hq r Hr. unfold R.init, node_queues in Hq. cbn [R.queues] in Hq. rewrite watched_chains_are in Hq. cbn [map R.find_queue R.q_chain] in Hq.
+  repeat (match type of Hq with (if ?b then _ else _) = _ => destruct b end; [inversion Hq; subst q; destruct Hr|]). discriminate Hq.
+Qed.
+
+Lemma drained_is_head d c r : snd (R.step d (R.Drain c)) = R.Drained (Some r) ->
+  exists q rest, R.find_queue (R.queues d) c = Some q /\ R.q_items q = r :: rest.
+Proof.
+  cbn [R.step]. destruct (R.find_queue (R.queues d) c) as [q|]; [|discriminate]. destruct (R.q_items q) as [|x rest] eqn:E; [discriminate|].
+  cbn [snd]. intros X. inversion X; subst. exists q, rest. auto.
+Qed.
+
+(* over whole histories from the initial state: every chain message the processor handles was handed over by the environment, or
+   is in the answer of watcher c's re-observation path to a request that names chain c *)
+Theorem loop_signs_only_watched H u m outs : In (u, EProc (LocalMsg m) outs) (snd (lrun linit H)) ->
+  (exists s, In (s, LEnv (VMsg m)) (lstates linit H)) \/
+  (exists s c r, In (s, LWatch c) (lstates linit H) /\ R.chain_of r = c /\ In m (watch c r (l_now s))).
+Proof.
+  intros Hin.
+  assert (G : forall H st, queues_named (l_disp st) -> In (u, EProc (LocalMsg m) outs) (snd (lrun st H)) ->
+              (exists s, In (s, LEnv (VMsg m)) (lstates st H)) \/
+              (exists s c r, In (s, LWatch c) (lstates st H) /\ R.chain_of r = c /\ In m (watch c r (l_now s)))).
+  { clear. induction H as [|o H IH]; intros st QN Hin; [destruct Hin|]. rewrite lrun_cons in Hin. cbn [snd] in Hin. apply in_app_or in Hin as [Hin|Hin].
+    - destruct (lstep_localmsg_source _ _ _ _ _ Hin) as [->|(c & r & -> & Hd & Hm)]; [left; exists st; left; reflexivity|].
+      right. exists st, c, r. split; [left; reflexivity|]. split; [|exact Hm]. destruct (drained_is_head _ _ _ Hd) as (q & rest & Hq & Hi). eapply QN; [exact Hq|]. rewrite Hi. left. reflexivity.
+    - assert (QN1 : queues_named (l_disp (fst (lstep st o)))).
+      { destruct (lstep_wf st o) as [[_ Dw] _]. rewrite Dw. apply queues_named_final. exact QN. }
+      destruct (IH _ QN1 Hin) as [(s & Hs)|(s & c & r & Hs & X)]; [left; exists s; right; exact Hs|right; exists s, c, r; split; [right; exact Hs|exact X]]. }
+  apply G; [apply queues_named_init|exact Hin].
+Qed.
+
+(* with a contract for the watchers' re-observation paths ("forwards only final messages of its own chain", C08 / C10) and for what
+   the environment hands over, EVERY chain message the processor ever handles satisfies the contract - whatever requests arrive *)
+Corollary loop_signs_only_final (Final : Z -> msgpub -> Prop) (FinalEnv : msgpub -> Prop) H :
+  (forall c r t m, R.chain_of r = c -> In m (watch c r t) -> Final c m) ->
+  (forall s m, In (s, LEnv (VMsg m)) (lstates linit H) -> FinalEnv m) ->
+  forall u m outs, In (u, EProc (LocalMsg m) outs) (snd (lrun linit H)) -> FinalEnv m \/ exists c, Final c m.
+Proof.
+  intros Hw He u m outs Hin. destruct (loop_signs_only_watched _ _ _ _ Hin) as [(s & Hs)|(s & c & r & _ & Hc & Hm)]; [left; eapply He; exact Hs|right; exists c; eapply Hw; eassumption].
+Qed.
+
+(* the processor signs (puts an observation of its own on the wire) only while handling a chain message or an injection, or when the
+   cleanup tick re-broadcasts an observation it made earlier; handling a chain message never publishes a VAA *)
+Lemma sendobs_source p o ob : In (SendObs ob) (snd (step p o)) -> (exists m, o = LocalMsg m) \/ (exists v, o = Inject v) \/ o = Cleanup.
+Proof.
+  destruct o as [g|t|m|v|ob'|k|b|]; cbn [Processor.step]; try (intros []); eauto.
+  - unfold Processor.handle_obs. destruct (Processor.rec _ _ _); [|intros []]. destruct (negb _); [intros []|].
+    destruct (match alookup (o_hash ob') (agg p) with Some e' => _ | None => cur p end); [|intros []]. destruct (negb _); [intros []|].
+    destruct (assemble _ _ _); [|intros [X|[]]; discriminate X]. destruct (our_vaa _); [|intros []]. destruct (_ && _); [|intros []].
+    destruct l; [intros [X|[]]; discriminate X|intros [X|[X|[]]]; discriminate X].
+  - destruct (nth_error _ _); [|intros []]. unfold Processor.handle_obs. destruct (Processor.rec _ _ _); [|intros []]. destruct (negb _); [intros []|].
+    match goal with |- context [match ?x with Some g => _ | None => (_, [])  end] => destruct x end; [|intros []]. destruct (negb _); [intros []|].
+    destruct (assemble _ _ _); [|intros [X|[]]; discriminate X]. destruct (our_vaa _); [|intros []]. destruct (_ && _); [|intros []].
+    destruct l; [intros [X|[]]; discriminate X|intros [X|[X|[]]]; discriminate X].
+  - unfold Processor.handle_inbound. destruct (unmarshal b); [|intros []]. destruct (cur p); [|intros []]. destruct (_ =? _)%nat; [intros []|]. destruct (_ =? _)%nat; [intros []|].
+    destruct (proc_inbound_below_quorum _ _); [intros []|]. destruct (negb _); [intros []|]. destruct (dlookup _ _); [intros []|intros [X|[]]; discriminate X].
+Qed.
+
+Lemma handle_message_never_publishes p m x : In x (snd (step p (LocalMsg m))) -> match x with SendVAA _ | Store _ _ => False | _ => True end.
+Proof.
+  cbn [Processor.step]. unfold Processor.handle_message. destruct (cur p); [|intros []]. destruct (_ && _); [intros []|].
+  assert (K : forall v s tx c, In x (snd (Processor.broadcast_signature keccak own p v s tx c)) -> match x with SendVAA _ | Store _ _ => False | _ => True end)
+    by (intros v s tx c [<-|[<-|[]]]; exact I).
+  destruct (dlookup _ _); [|apply K]. destruct (unmarshal _); [destruct (_ <? _); [intros []|apply K]|]. destruct proc_stored_unmarshal_failure_panics; [intros [<-|[]]; exact I|apply K].
+Qed.
 End Loop2.
